@@ -267,6 +267,11 @@ def parseBindings : List Bytes → List Bytes → Except LinkErr (List Binding)
       | .ok bs => .ok (b :: bs)
   | _, _ => .ok []
 
+/-- `proto.Unmarshal` fails on the decoded traffic pattern -/
+def tpRejected (tpOK : Bytes → Bool) : Option Bytes → Bool
+  | some b => !tpOK b
+  | none => false
+
 /-- `URLToClientProfile` after `url.Parse` succeeded.  `isIP` = `net.ParseIP(host) != nil`,
     `tpOK` = outcome of `proto.Unmarshal` on the decoded traffic pattern. -/
 def urlToProfile (isIP : Bytes → Bool) (tpOK : Bytes → Bool) (u : ParsedUrl) : Except LinkErr Profile :=
@@ -290,7 +295,7 @@ def urlToProfile (isIP : Bytes → Bool) (tpOK : Bytes → Bool) (u : ParsedUrl)
       match (if tpS = [] then some none else (Mieru.Base64.decode tpS).map some) with
       | none => .error .tpBase64
       | some tp =>
-        if (match tp with | some b => !tpOK b | none => false) then .error .tpUnmarshal else
+        if tpRejected tpOK tp then .error .tpUnmarshal else
         let ports := getAll kPort q
         let protos := getAll kProtocol q
         if ports.length ≠ protos.length then .error .portProtocolMismatch else
